@@ -1,24 +1,40 @@
 ---------------------------- MODULE MC_Admission ----------------------------
 EXTENDS Admission, Json, SequencesExt
-CONSTANTS MaxSteps, Emit, NHosts, MaxAdv
+CONSTANTS MaxSteps, Emit, NHosts, MaxAdv,
+          FillFirst     \* steering: until the peer table has held this many peers once, only connection attempts happen (0 = no steering)
 HostsV == 1 .. NHosts
 GroupV == [h \in 1 .. NHosts |-> (h + 1) \div 2]      \* hosts 1,2 share group 1; 3,4 group 2; ...
-VARIABLE hist
-madvars == <<advars, hist>>
+VARIABLES hist,
+          filled     \* steering: the table has held FillFirst peers once
+madvars == <<advars, hist, filled>>
 HostSeq == [h \in 1 .. NHosts |-> h]
 Obs == [res |-> ares', total |-> Cardinality(peers'),
         perhost |-> [h \in 1 .. NHosts |-> Cardinality({p \in peers' : p.host = h /\ p.dir # "pers"})],
         pergroup |-> [g \in 1 .. ((NHosts + 1) \div 2) |-> Cardinality({p \in peers' : GroupV[p.host] = g /\ p.dir # "in"})],
         ids |-> SetToSeq({p.id : p \in peers'})]
-Log(rec) == hist' = Append(hist, rec @@ Obs)
-MAdInit == AdInit /\ hist = <<>>
-MAdNext ==
-  /\ Len(hist) < MaxSteps
-  /\ \/ \E d \in Dirs, h \in Hosts : Add(d, h) /\ Log([op |-> "add", dir |-> d, host |-> h])
-     \/ \E p \in peers : Done(p) /\ Log([op |-> "done", id |-> p.id])
-     \/ \E h \in Hosts : Ban(h) /\ Log([op |-> "ban", host |-> h])
-     \/ (Cardinality({k \in 1 .. Len(hist) : hist[k].op = "advance"}) < MaxAdv /\ Advance /\ Log([op |-> "advance"]))
+Log(rec) == hist' = Append(hist, rec @@ Obs) /\ filled' = (FillFirst = 0 \/ filled \/ Cardinality(peers') >= FillFirst)
+MAdInit == AdInit /\ hist = <<>> /\ filled = (FillFirst = 0)
+\* while filling: exactly one connection attempt per step, host after host (the lowest host with a free per-host slot)
+FillHost == CHOOSE h \in Hosts : CountHost(h) < MaxPerHost /\ \A g \in 1 .. (h - 1) : CountHost(g) >= MaxPerHost
+FillDir  == IF Total % 3 = 0 THEN "out" ELSE "in"
+FreeNext ==
+  \/ \E d \in Dirs, h \in Hosts : Add(d, h) /\ Log([op |-> "add", dir |-> d, host |-> h])
+  \/ \E p \in peers : Done(p) /\ Log([op |-> "done", id |-> p.id])
+  \/ \E h \in Hosts : Ban(h) /\ Log([op |-> "ban", host |-> h])
+  \/ (Cardinality({k \in 1 .. Len(hist) : hist[k].op = "advance"}) < MaxAdv /\ Advance /\ Log([op |-> "advance"]))
+\* steered: fill the table first (one attempt per step); at a full table the attempts worth making come from hosts that
+\* still have per-host room
+SteeredNext ==
+  IF ~filled
+    THEN Add(FillDir, FillHost) /\ Log([op |-> "add", dir |-> FillDir, host |-> FillHost])
+    ELSE \/ \E d \in Dirs, h \in Hosts :
+              /\ (Total < MaxPeers \/ CountHost(h) < MaxPerHost)
+              /\ Add(d, h) /\ Log([op |-> "add", dir |-> d, host |-> h])
+         \/ \E p \in peers : Done(p) /\ Log([op |-> "done", id |-> p.id])
+         \/ \E h \in Hosts : Ban(h) /\ Log([op |-> "ban", host |-> h])
+         \/ (Cardinality({k \in 1 .. Len(hist) : hist[k].op = "advance"}) < MaxAdv /\ Advance /\ Log([op |-> "advance"]))
+MAdNext == Len(hist) < MaxSteps /\ (IF FillFirst = 0 THEN FreeNext ELSE SteeredNext)
 MAdSpec == MAdInit /\ [][MAdNext]_madvars
-AdView == advars
+AdView == <<advars, filled>>
 EmitInv == (Emit = "paths" /\ Len(hist) = MaxSteps) => PrintT(ToJson([hist |-> hist]))
 =============================================================================
